@@ -6,6 +6,7 @@ from sa import AnalysisError
 from sa.kinds import (key, utext, call_name, recv_text, calls_in, node_calls, canon_compare, oriented,
                       loop_body_exits_early, all_stores)
 from sa.cfg import walk_calls, walk_nodes
+from sa.astutil import canon_text as ct
 
 EXPLANATION = (
     "Decided part of C01: the first sentence as a gate property. (R1) a PLACE or REPLACE reaches order.place / "
@@ -60,22 +61,23 @@ def run(ctx, rep):
     vc = prog.own_method("Transaction", "_validate_controls")
     cfg = ctx.cfg(vc)
     tries = walk_nodes(vc.node.body, ast.Try)
-    good = len(tries) == 1 and len(vc.node.body) - sum(
-        1 for s in vc.node.body if isinstance(s, ast.Expr) and isinstance(s.value, ast.Constant)) == 1
+    from sa.kinds import sbody
+    good = len(tries) == 1 and len(sbody(vc.node.body)) == 1
     if good:
         t = tries[0]
-        loops = [s for s in t.body if isinstance(s, ast.For)]
+        loops = [s for s in sbody(t.body) if isinstance(s, ast.For)]
         iters = [utext(lp.iter) for lp in loops]
         good = (set(iters) == {"self.market.flumine.trading_controls", "self._client.trading_controls"}
-                and len(t.body) == len(loops) == 2)
+                and len(sbody(t.body)) == len(loops) == 2)
         for lp in loops:
             calls = [c for c in walk_calls(lp.body)]
-            good = good and len(lp.body) == 1 and len(calls) == 1 and utext(calls[0].func) == utext(lp.target) \
+            calls = [c for c in calls if not (isinstance(c.func, ast.Attribute) and utext(c.func.value) == "logger")]
+            good = good and len(sbody(lp.body)) == 1 and len(calls) == 1 and utext(calls[0].func) == utext(lp.target) \
                 and [utext(a) for a in calls[0].args] == vc.params[1:3] and not loop_body_exits_early(lp)
         hs = t.handlers
         good = good and len(hs) == 1 and utext(hs[0].type) == "ControlError" and \
-            [utext(s) for s in hs[0].body] == ["return False"]
-        good = good and [utext(s) for s in t.orelse] == ["return True"] and not t.finalbody
+            [utext(s) for s in sbody(hs[0].body)] == ["return False"]
+        good = good and [utext(s) for s in sbody(t.orelse)] == ["return True"] and not t.finalbody
     rep.check(good, "R2", key(vc, None, "every flumine and client control is called; ControlError => False, else True"), vc)
 
     # ------------------------------------------------------------------ R3 default registration
@@ -184,9 +186,9 @@ def run(ctx, rep):
             for excluded in (False, True):
                 def ev(e, prospective=prospective, state=state, excluded=excluded):
                     t = utext(e)
-                    if t == "order == exclusion":
+                    if t == ct("order == exclusion"):
                         return excluded
-                    if t == "order != exclusion":
+                    if t == ct("order != exclusion"):
                         return not excluded
                     if t == "order.status in PENDING_STATUS":
                         return state == "pending_or_refused"
